@@ -179,6 +179,23 @@ pub fn gen_big_mapset(rng: &mut Rng, coll: Coll, scale: usize, template: u64) ->
                 }
             }
             ops.push(Op::M(MOp::Chk));
+            // a few removals (some of them black leaves: the sentinel slot is written), then every
+            // stored key asked for through the handle and the look-up interface
+            for _ in 0..20 {
+                if reference.is_empty() {
+                    break;
+                }
+                let idx = rng.below(reference.len() as u64) as usize;
+                let kk = *reference.keys().nth(idx).unwrap();
+                reference.remove(&kk);
+                ops.push(Op::M(MOp::Del(kk)));
+            }
+            let all: Vec<i32> = reference.keys().copied().collect();
+            let step = (all.len() / 700).max(1);
+            for k in all.iter().step_by(step) {
+                ops.push(Op::M(MOp::First(*k)));
+                ops.push(Op::M(MOp::Get(*k)));
+            }
         }
         2 => {
             // fill the fresh arena exactly (arena - 1 entries), hold handles on everything, grow
@@ -832,4 +849,172 @@ pub fn gen_thin(rng: &mut Rng, coll: Coll) -> History {
         probe_all(&mut ops, &remaining);
     }
     History { coll, params: vec![8], ops, twin: None, inject: None }
+}
+
+// ---------------------------------------------------------------------------------------------
+// "fan": random mid-size states with EVERY one-step continuation tried from each
+
+/// map / set: a random history that leaves 10..40 entries, then one history per stored key that
+/// removes it (by key / through its handle) and per gap that inserts into it, each followed by a
+/// look-up of every key (and the neighbour steps for the set).  A defect that needs one particular
+/// node of one particular shape gets as many chances per state as the state has nodes, and the
+/// states carry the hidden history (slot numbers, stale sentinel fields) that a closure over shapes
+/// does not.
+pub fn gen_fan_mapset(rng: &mut Rng, coll: Coll, pairs: bool, out: &mut Vec<History>) {
+    let is_set = coll == Coll::SetTree;
+    let universe: i64 = *rng.pick(&[24, 40, 64]);
+    let target = if pairs { rng.range(8, 18) as usize } else { rng.range(9, 36) as usize };
+    let mut reference: BTreeMap<i32, i64> = BTreeMap::new();
+    let mut prefix: Vec<Op> = Vec::new();
+    let mut val: i64 = 1;
+    // grow beyond the target, shrink back towards it, with look-ups in between
+    let over = target + rng.range(0, 12) as usize;
+    let mut steps = 0;
+    while steps < 400 && (reference.len() < over.min(universe as usize - 2)) {
+        steps += 1;
+        let k = rng.range(0, universe - 1) as i32;
+        if rng.chance(78) {
+            if !reference.contains_key(&k) {
+                reference.insert(k, val);
+                prefix.push(Op::M(MOp::Ins(k, val)));
+                val += 1;
+            }
+        } else if rng.chance(60) {
+            if !reference.is_empty() {
+                let idx = rng.below(reference.len() as u64) as usize;
+                let kk = *reference.keys().nth(idx).unwrap();
+                reference.remove(&kk);
+                prefix.push(Op::M(if rng.chance(50) { MOp::Del(kk) } else { MOp::DelIdx(kk) }));
+            }
+        } else {
+            prefix.push(Op::M(MOp::Get(k)));
+        }
+    }
+    while reference.len() > target {
+        let idx = rng.below(reference.len() as u64) as usize;
+        let kk = *reference.keys().nth(idx).unwrap();
+        reference.remove(&kk);
+        prefix.push(Op::M(MOp::Del(kk)));
+        if rng.chance(30) {
+            let g = rng.range(0, universe - 1) as i32;
+            prefix.push(Op::M(MOp::Get(g)));
+        }
+    }
+    let keys: Vec<i32> = reference.keys().copied().collect();
+    let probes = |ops: &mut Vec<Op>, ks: &[i32]| {
+        for k in ks {
+            ops.push(Op::M(MOp::Get(*k)));
+            if is_set {
+                ops.push(Op::M(MOp::After(*k)));
+                ops.push(Op::M(MOp::Before(*k)));
+            } else {
+                ops.push(Op::M(MOp::First(*k)));
+            }
+        }
+    };
+    let mk = |ops: Vec<Op>| History { coll, params: vec![8], ops, twin: None, inject: None };
+    for (i, k) in keys.iter().enumerate() {
+        let mut ops = prefix.clone();
+        // sometimes the entry is looked up (or its neighbour removed) just before
+        match rng.below(4) {
+            0 => ops.push(Op::M(MOp::Get(*k))),
+            1 if i + 1 < keys.len() => ops.push(Op::M(MOp::Get(keys[i + 1]))),
+            _ => {}
+        }
+        ops.push(Op::M(if i % 2 == 0 { MOp::Del(*k) } else { MOp::DelIdx(*k) }));
+        let mut rest: Vec<i32> = keys.clone();
+        rest.remove(i);
+        // one more step on a neighbour, then everything is looked up
+        if i < rest.len() && rng.chance(50) {
+            let nk = rest[i];
+            ops.push(Op::M(MOp::Get(nk)));
+            ops.push(Op::M(MOp::Del(nk)));
+            ops.push(Op::M(MOp::Get(nk)));
+            rest.remove(i);
+        }
+        probes(&mut ops, &rest);
+        out.push(mk(ops));
+    }
+    // every ORDERED PAIR of removals from the smaller states: whatever the first one leaves behind
+    // (a stale field of the sentinel, a freed slot) is met by the second
+    if pairs && keys.len() <= 18 {
+        for (i, k1) in keys.iter().enumerate() {
+            for (j, k2) in keys.iter().enumerate() {
+                if i == j {
+                    continue;
+                }
+                let mut ops = prefix.clone();
+                ops.push(Op::M(MOp::Del(*k1)));
+                ops.push(Op::M(if (i + j) % 3 == 0 { MOp::DelIdx(*k2) } else { MOp::Del(*k2) }));
+                let rest: Vec<i32> = keys.iter().copied().filter(|k| k != k1 && k != k2).collect();
+                probes(&mut ops, &rest);
+                out.push(mk(ops));
+            }
+        }
+        return;
+    }
+    for g in 0..=keys.len() {
+        let lo = if g == 0 { -1 } else { keys[g - 1] };
+        let hi = if g == keys.len() { universe as i32 } else { keys[g] };
+        if hi - lo < 2 {
+            continue;
+        }
+        let k = lo + 1 + (rng.below((hi - lo - 1) as u64) as i32);
+        let mut ops = prefix.clone();
+        ops.push(Op::M(MOp::Ins(k, 7777)));
+        let mut all = keys.clone();
+        all.insert(g, k);
+        probes(&mut ops, &all);
+        out.push(mk(ops));
+    }
+}
+
+/// expiring-key tree: a random state of 8..40 stored entries with expirations 5 / 10 / 15 / far (a few
+/// queries before anything expires), then EVERY query kind for EVERY key at each of the times
+/// 5, 10, 15 and every insertion of an absent key, each on an independent copy of that state: each
+/// of them is the first operation to meet the expired entries
+pub fn gen_fan_key(rng: &mut Rng) -> History {
+    let universe: i32 = *rng.pick(&[24, 40, 64]);
+    let n = rng.range(8, 40) as usize;
+    let mut ops: Vec<Op> = Vec::new();
+    let mut reference: BTreeMap<i32, i32> = BTreeMap::new();
+    let mut val: i64 = 1;
+    let far = 1_000_000;
+    let mix = rng.below(3);
+    while reference.len() < n.min(universe as usize - 2) {
+        let k = rng.range(0, universe as i64 - 1) as i32;
+        if reference.contains_key(&k) {
+            continue;
+        }
+        let e = match mix {
+            0 => *rng.pick(&[5, 10, 15, far, far]),
+            1 => *rng.pick(&[5, far, far, far]),
+            _ => *rng.pick(&[5, 5, 10, 10, 15, far]),
+        };
+        reference.insert(k, e);
+        ops.push(Op::K(KOp::Ins { k, e, v: val, t: 0 }));
+        val += 1;
+        if rng.chance(8) {
+            ops.push(Op::K(KOp::Get(rng.range(0, 4) as i32, k)));
+        }
+    }
+    for t in [5, 10, 15] {
+        for k in -1..=universe {
+            for kind in 0..5 {
+                let q = match kind {
+                    0 => KOp::Get(t, k),
+                    1 => KOp::LessEq(t, k),
+                    2 => KOp::Less(t, k),
+                    3 => KOp::By(t, k),
+                    _ => KOp::Th(t, k),
+                };
+                ops.push(Op::Fork(Box::new(Op::K(q))));
+            }
+            if k >= 0 && k < universe && reference.get(&k).map_or(true, |e| *e <= t) {
+                ops.push(Op::Fork(Box::new(Op::K(KOp::Ins { k, e: far, v: 9000 + k as i64, t }))));
+            }
+        }
+        ops.push(Op::Fork(Box::new(Op::K(KOp::Export(t)))));
+    }
+    History { coll: Coll::KeyTree, params: vec![8], ops, twin: None, inject: None }
 }
